@@ -107,6 +107,7 @@ Lemma ws_not_mnem c : is_ws c = true -> is_mnem c = false.  Proof. char_cases c.
 Lemma ws_not_at c : is_ws c = true -> Ascii.eqb c "@" = false.  Proof. char_cases c. Qed.
 Lemma ws_not_colon c : is_ws c = true -> Ascii.eqb c ":" = false.  Proof. char_cases c. Qed.
 Lemma ws_not_dirname c : is_ws c = true -> is_dirname c = false.  Proof. char_cases c. Qed.
+Lemma ws_not_bf c : is_ws c = true -> one_of "bBfF" c = false.  Proof. char_cases c. Qed.
 Lemma lblfirst_not_hash c : is_lblfirst c = true -> Ascii.eqb c "#" = false.  Proof. char_cases c. Qed.
 Lemma lblfirst_not_slash c : is_lblfirst c = true -> Ascii.eqb c "/" = false.  Proof. char_cases c. Qed.
 Lemma lblfirst_not_ws c : is_lblfirst c = true -> is_ws c = false.  Proof. char_cases c. Qed.
@@ -363,8 +364,19 @@ Proof.
     unfold blanks, allc in H1. rewrite E1 in H1. simpl in H1. apply andb_true_iff in H1.
     apply brk_not_digit. apply ws_brk. tauto. }
   rewrite span_app by assumption.
+  (* the character after the digits is a blank or the colon: not a b/f suffix *)
+  repeat match goal with
+  | |- context [skip ?m] =>
+    lazymatch m with
+    | match _ with _ => _ end =>
+      replace m with (L w1 ++ ":" :: L w2 ++ render_comment c)
+        by (destruct (L w1) as [|y ys] eqn:E1; [reflexivity|]; cbn [app];
+            unfold blanks, allc in H1; rewrite E1 in H1; simpl in H1; apply andb_true_iff in H1; destruct H1 as [Hy _];
+            rewrite (ws_not_bf y Hy); reflexivity)
+    end
+  end.
   rewrite skipL by (assumption || reflexivity).
-  change (one_of "bBfF" ":") with false. cbv iota. simpl hd_eqb. simpl tl. cbv iota.
+  simpl hd_eqb. simpl tl. cbv iota.
   rewrite label_tail_render by assumption. rewrite <- En, S_L. reflexivity.
 Qed.
 
